@@ -729,18 +729,18 @@ def ciq_bound(kappa, Q):
     return 50.0 * math.exp(-2 * math.pi ** 2 * Q / (math.log(max(kappa, 1.0)) + 3.0))
 
 
-def check_ciq(chk, g, rng, n, fam, kappa, batch, rbatch_extra, cols, inverse, Q, opkind, consts, corr_lines):
+def check_ciq(chk, g, rng, n, fam, kappa, batch, rbatch_extra, cols, inverse, Q, opkind, consts, corr_lines, A_given=None, rhs_given=None, tag=""):
     from linear_operator.utils.contour_integral_quad import contour_integral_quad
     from linear_operator.operators import DenseLinearOperator, DiagLinearOperator
     from linear_operator import settings
-    A = spd(n, kappa, fam, g, batch)
+    A = spd(n, kappa, fam, g, batch) if A_given is None else A_given.clone()
     if opkind == "diag":
         A = torch.diag_embed(torch.diagonal(A, dim1=-2, dim2=-1))
         op = DiagLinearOperator(torch.diagonal(A, dim1=-2, dim2=-1).clone())
     else:
         op = DenseLinearOperator(A.clone())
-    rhs = torch.randn(*rbatch_extra, *batch, n, cols, generator=g, dtype=F64)
-    cell = (f"C11/ciq/{'inverse' if inverse else 'sqrt'}/op={opkind}|fam={fam}|kappa={kappa:g}|n={n}|batch={bstr(batch)}|extra={bstr(rbatch_extra)}|cols={cols}|Q={Q}")
+    rhs = torch.randn(*rbatch_extra, *batch, n, cols, generator=g, dtype=F64) if rhs_given is None else rhs_given.clone()
+    cell = (f"C11/ciq/{'inverse' if inverse else 'sqrt'}/op={opkind}|fam={fam}|kappa={kappa:g}|n={n}|batch={bstr(batch)}|extra={bstr(rbatch_extra)}|cols={cols}|Q={Q}{tag}")
     chk.case(cell + "|" + bits(float(rhs.sum())), nontrivial=n > 1)
     pl = {"check": "ciq", "A": A.tolist(), "rhs": rhs.tolist(), "inverse": inverse, "Q": Q, "opkind": opkind, "fam": fam, "kappa": kappa, "n": n}
     tolm = 1e-10
@@ -785,14 +785,28 @@ def check_ciq(chk, g, rng, n, fam, kappa, batch, rbatch_extra, cols, inverse, Q,
     if not es <= (1e-7 * max(1.0, kappa) if exact_est else 2e-3):
         chk.violation(cell + "/solves", f"returned solves differ from {'K ' if not inverse else ''}(-K + s_q I)^-1 b: relative error {es:.3e}", pl)
     chk.count("ciq_cases")
-    # ---- correspondence line (single column, unbatched): the Lean plumbing fed with the recorded elliptic outputs
-    if batch == () and rbatch_extra == () and n <= 12 and len(rec.kcalls) == 1 and len(rec.jcalls) == 1 and rec.ecalls:
-        (_, kp), (u, m, (sn, cn, dn, _)) = rec.kcalls[0], rec.jcalls[0]
-        eigs = rec.ecalls[0].reshape(-1)
-        words = ["ciq", str(n), str(Qn), "1" if inverse else "0", bits(0.0), bits(math.pi), enc_vec(eigs), enc_vec(torch.diagonal(A)),
-                 bits(kp), enc_vec(sn), enc_vec(cn), enc_vec(dn), enc_mat(A), "-", enc_vec(rhs[:, 0]), bits(tolm), "d"]
-        corr_lines.append((cell, " ".join(words), dict(shifts=shifts.reshape(-1), weights=weights.reshape(-1), noshift=no_shift[:, 0],
-                                                       solves=solves[:, :, 0], k2arg=m), pl))
+    # ---- correspondence lines, one per batch member (first column): the Lean plumbing fed with THAT member's recorded
+    # eigenvalue estimates and with elliptic-function values computed here by scipy (independently of the library's calls)
+    if rbatch_extra == () and n <= 12 and rec.ecalls and opkind == "dense":
+        import numpy as np
+        import scipy.special as sps
+        eig_all = rec.ecalls[0].double().reshape(-1, rec.ecalls[0].shape[-1])
+        Am, rm = A.reshape(-1, n, n), rhs.reshape(-1, n, cols)
+        nmem = Am.shape[0]
+        if eig_all.shape[0] == nmem:
+            sh_m, w_m = shifts.reshape(Qn + 1, nmem), weights.reshape(Qn, nmem)
+            ns_m, so_m = no_shift.reshape(nmem, n, cols), solves.reshape(Qn, nmem, n, cols)
+            for mi in range(min(nmem, 4)):
+                eigs, dg = eig_all[mi], torch.diagonal(Am[mi])
+                use = eigs if float(eigs.min()) > 0 else dg
+                k2 = float(use.min() / use.max())
+                kp = float(sps.ellipk(1 - k2))
+                sn, cn, dn, _ = sps.ellipj((np.arange(1, Qn + 1) - 0.5) * kp / Qn, 1 - k2)
+                words = ["ciq", str(n), str(Qn), "1" if inverse else "0", bits(0.0), bits(math.pi), enc_vec(eigs), enc_vec(dg),
+                         bits(kp), enc_vec(sn), enc_vec(cn), enc_vec(dn), enc_mat(Am[mi]), "-", enc_vec(rm[mi, :, 0]), bits(tolm), "d"]
+                k2rec = rec.kcalls[0][0] if (nmem == 1 and len(rec.kcalls) == 1) else 1 - k2
+                corr_lines.append((cell + f"|member={mi}", " ".join(words),
+                                   dict(shifts=sh_m[:, mi], weights=w_m[:, mi], noshift=ns_m[mi, :, 0], solves=so_m[:, mi, :, 0], k2arg=k2rec), pl))
 
 
 def compare_ciq(chk, corr_lines):
@@ -1015,11 +1029,105 @@ def check_sampling(chk, g, rng, consts, quick):
             continue
         Sm = S.permute(*range(1, 1 + len(batch)), 0, -1) if batch else S     # (*batch, sample, n): row k = A^{1/2} e_k
         cov = Sm.mT @ Sm
-        err = float((cov - A).norm() / A.norm())
+        err = float(((cov - A).norm(dim=(-2, -1)) / A.norm(dim=(-2, -1))).max())
         lim = ciq_bound(30.0 * 3, int(consts["num_contour_quadrature"])) + 1e-6
         if err > lim:
             chk.violation(cell, f"CIQ samples with identity noise give S^T S != A: relative error {err:.3e} > {lim:.3e}", {"check": "sampling", "A": A.tolist()})
         chk.count("sampling_cases")
+
+
+SCALES = (1.0 / 1024, 1.0, 256.0)
+
+
+def ciq_sample_root(op, n):
+    """`zero_mean_mvn_samples(n)` under ciq_samples with identity noise: returns S with rows A^{1/2} e_k per batch member."""
+    from linear_operator import settings
+    real = torch.randn
+
+    def fake(*size, **kw):
+        if inspect.stack()[1].function != "zero_mean_mvn_samples":
+            return real(*size, **kw)
+        if len(size) == 1 and isinstance(size[0], (tuple, list, torch.Size)):
+            size = tuple(size[0])
+        return torch.eye(n, dtype=kw.get("dtype", F64)).expand(*size).clone()
+
+    torch.randn = fake
+    try:
+        with warnings.catch_warnings():
+            warnings.simplefilter("ignore")
+            with settings.ciq_samples(True), settings.minres_tolerance(1e-10):
+                return op.zero_mean_mvn_samples(n)
+    finally:
+        torch.randn = real
+
+
+def check_op_root(chk, cell, A, R, Lh, consts, kappa):
+    """Dense operator with matrix A (possibly batched): sqrt_inv_matmul once / twice / with lhs and CIQ sampling, each compared
+    per batch member with the eigh reference."""
+    from linear_operator import settings
+    from linear_operator.operators import DenseLinearOperator
+    n, batch = A.shape[-1], tuple(A.shape[:-2])
+    pl = {"check": "op-scale", "A": A.tolist(), "R": R.tolist()}
+    lim = ciq_bound(kappa, int(consts["num_contour_quadrature"])) + 1e-7 * max(1.0, kappa ** 0.5)
+
+    def rel(a, b):
+        return float(((a - b).norm(dim=-2) / b.norm(dim=-2).clamp_min(1e-300)).max())
+    try:
+        with warnings.catch_warnings():
+            warnings.simplefilter("ignore")
+            with settings.minres_tolerance(1e-10):
+                op = DenseLinearOperator(A.clone())
+                y1 = op.sqrt_inv_matmul(R.clone())
+                y2 = DenseLinearOperator(A.clone()).sqrt_inv_matmul(y1.clone())
+                rl, iq = DenseLinearOperator(A.clone()).sqrt_inv_matmul(R.clone(), Lh.clone())
+        S = ciq_sample_root(DenseLinearOperator(A.clone()), n)
+    except Exception as e:
+        chk.violation(cell + "/raises", f"raised {type(e).__name__}: {str(e)[:100]}", pl)
+        return
+    root = sym_fun(A, lambda t: t.rsqrt())
+    if rel(y1, root @ R) > lim:
+        chk.violation(cell + "/once", f"sqrt_inv_matmul(R) differs from A^-1/2 R (per batch member): relative error {rel(y1, root @ R):.3e} > {lim:.3e}", pl)
+    if rel(y2, torch.linalg.solve(A, R)) > 3 * lim * max(1.0, kappa ** 0.5):
+        chk.violation(cell + "/twice", f"sqrt_inv_matmul applied twice differs from A^-1 R (per batch member): relative error {rel(y2, torch.linalg.solve(A, R)):.3e}", pl)
+    if rel(rl, Lh @ (root @ R)) > 3 * lim * max(1.0, kappa ** 0.5) + 1e-9:
+        chk.violation(cell + "/lhs", f"L A^-1/2 R is off: relative error {rel(rl, Lh @ (root @ R)):.3e}", pl)
+    wq = torch.diagonal(Lh @ torch.linalg.solve(A, Lh.mT), dim1=-2, dim2=-1)
+    if float(((iq - wq).abs() / wq.abs()).max()) > 1e-7 * max(1.0, kappa):
+        chk.violation(cell + "/inv_quad", f"inv_quad term differs from diag(L A^-1 L^T): relative error {float(((iq - wq).abs() / wq.abs()).max()):.3e}", pl)
+    Sm = S.permute(*range(1, 1 + len(batch)), 0, -1) if batch else S
+    e = float((((Sm.mT @ Sm) - A).norm(dim=(-2, -1)) / A.norm(dim=(-2, -1))).max())
+    if e > lim * 10 + 1e-6:
+        chk.violation(cell + "/sampling", f"CIQ samples with identity noise give S^T S != A (per batch member): relative error {e:.3e}", pl)
+    chk.count("scale_cases")
+
+
+def check_scales_and_histories(chk, g, rng, consts, corr_lines, quick):
+    """(a) batches whose members have the same condition number but scales 1/1024, 1, 256 (bit-identical eigenvalue-ratio
+    estimates); (b) multi-call histories in one process: K, 256 K, K, K/1024, 32 K with the same right-hand side."""
+    cfgs = [(4, 20.0), (9, 60.0)] if quick else [(2, 5.0), (4, 20.0), (6, 100.0), (9, 60.0), (12, 30.0)]
+    for n, kappa in cfgs:
+        fam = rng.choice(FAMS)
+        K = spd(n, kappa, fam, g)
+        cols = rng.choice([1, 2])
+        b = torch.randn(n, cols, generator=g, dtype=F64)
+        Lh = torch.randn(2, n, generator=g, dtype=F64)
+        # (a) one batch
+        A3 = torch.stack([K * sc_ for sc_ in SCALES])
+        b3 = b.expand(3, n, cols).clone()
+        for inverse in (True, False):
+            check_ciq(chk, g, rng, n, fam, kappa, (3,), (), cols, inverse, rng.choice([None, 10]), "dense", consts, corr_lines,
+                      A_given=A3, rhs_given=b3, tag="|scales=1/1024,1,256")
+        cell = f"C11/op-scale/batch|n={n}|kappa={kappa:g}|scales=1/1024,1,256"
+        chk.case(cell + "|" + bits(float(b.sum())), nontrivial=True)
+        check_op_root(chk, cell, A3, b3, Lh.expand(3, 2, n).clone(), consts, kappa)
+        # (b) history in one process
+        for step, sc_ in enumerate((1.0, 256.0, 1.0, 1.0 / 1024, 32.0)):
+            for inverse in (True, False):
+                check_ciq(chk, g, rng, n, fam, kappa, (), (), cols, inverse, None, "dense", consts, corr_lines,
+                          A_given=K * sc_, rhs_given=b, tag=f"|history={step}:x{sc_:g}")
+            cell = f"C11/op-scale/history={step}:x{sc_:g}|n={n}|kappa={kappa:g}"
+            chk.case(cell + "|" + bits(float(b.sum())), nontrivial=True)
+            check_op_root(chk, cell, K * sc_, b, Lh, consts, kappa)
 
 
 # ---------------------------------------------------------------------------------------------- translator cross-check
@@ -1043,6 +1151,8 @@ def translator_crosscheck(chk, consts):
     csig = inspect.signature(contour_integral_quad)
     if consts["max_lanczos_iter"] is None or int(consts["max_lanczos_iter"]) != csig.parameters["max_lanczos_iter"].default:
         chk.proof_break("translator(C11Consts)", "max_lanczos_iter default differs at run time")
+    if consts.get("module_state"):
+        chk.proof_break("translator(C11Consts)", "module-level mutable state / memoisation in the solver modules: " + "; ".join(consts["module_state"])[:300])
     for k in ("zero_thresh", "check_every", "extra_iters", "size_slack", "ciq_value"):
         if consts[k] is None:
             chk.proof_break("translator(C11Consts)", f"literal `{k}` not recognised in the source")
@@ -1153,6 +1263,7 @@ def run(chk):
     for n in ([4, 9] if quick else [2, 4, 7, 9, 12]):   # unbatched cases for the plumbing correspondence
         for inverse in (True, False):
             check_ciq(chk, g, rng, n, rng.choice(FAMS), rng.choice([5.0, 100.0]), (), (), 1, inverse, rng.choice([None, 8]), "dense", consts, corr_lines)
+    check_scales_and_histories(chk, g, rng, consts, corr_lines, quick)
     compare_ciq(chk, corr_lines)
     # ---- operators, sampling
     check_ops(chk, g, rng, consts, quick)
